@@ -205,6 +205,15 @@ def gen_program(r: Rng, size=30, sp=None, allow_undefined=False, stdout_writes=T
                 stream = r.choice([0, 0, 0, 256, 0x200, 0x300, 0x700])
                 p.op("LDAC", stream); p.op("LDBM", 1); p.op("STAI", 2); p.op("LDAC", 2); p.opr(3)
                 p.op("LDBM", 1); p.op("LDBI", 1)
+                if r.chance(1, 2):
+                    # make all 32 bits of the value read observable: branch on its sign / on value - 128
+                    wr = Prog()
+                    wr.op("LDAC", r.choice([0x4E, 0x50])); wr.op("LDBM", 1); wr.op("STAI", 2)
+                    wr.op("LDAC", 0 if stdout_writes else 0x300); wr.op("STAI", 3); wr.op("LDAC", 1); wr.opr(3)
+                    p.op("LDAM", 1); p.op("LDAI", 1)
+                    if r.chance(1, 2):
+                        p.op("LDBC", 128); p.opr(2)          # areg = value - 128
+                    p.op("BRN", len(wr.b)); p.b += wr.b
             elif k == 19 and read_unwritten:
                 # read a word far above the image that nothing has written, and make it observable
                 p.op("LDAM", r.choice([50000, 150000, MEMW - 1, 3000 + r.below(100000)]))
@@ -262,3 +271,59 @@ def run_case(r: Rng, tracing=0, max_cycles=0, fill=0, size=None, debug=False, tr
     fuel = 4000
     line = f"run {max_cycles} {tracing} {tr} {fuel} {format(fill, 'x')} {''.join(format(x, '02x') for x in f)} {stdin} {files}"
     return line
+
+
+# ---------------------------------------------------------------------------------------------
+# Multi-step planted cases: hidden (non-architectural) state in an implementation shows only when
+# one step's effect must be seen by the next, e.g. a store into the word being executed.
+
+SAFE = [0x30, 0x31, 0x3F, 0x40, 0x45, 0xD1, 0xD2, 0xE1, 0xE0, 0xF0, 0x35, 0x4A]   # LDAC/LDBC/ADD/SUB/PFIX/NFIX bytes
+
+
+def steps_case(r: Rng):
+    k = 2 + r.below(5)
+    w = r.choice([2, 10, 100, 5000, MEMW - 2, r.below(MEMW - 2)])
+    lane = r.below(3)
+    mem = {}
+    kind = r.below(6)
+    old = [r.choice(SAFE) for _ in range(4)]
+    new = [r.choice(SAFE) for _ in range(4)]
+    a, b, o = rnd_word(r), rnd_word(r), 0
+    stdin, files = "-", "-"
+    if kind <= 2:
+        # STAM/STAI into the word being executed (or the next one): the following bytes must be the NEW ones
+        tgt = w + (0 if kind < 2 else r.below(2))
+        a = int.from_bytes(bytes(new), "little")
+        if kind == 0:
+            o = tgt & ~0xF & M32
+            old[lane] = 0x20 | (tgt & 0xF)            # STAM tgt
+        else:
+            off = r.below(16)
+            b = (tgt - off) & M32
+            old[lane] = 0x80 | off                     # STAI off  (breg + off = tgt)
+        # keep the storing byte itself in place in the new word so that pc continues sensibly
+        for i in range(lane + 1):
+            new[i] = old[i]
+        a = int.from_bytes(bytes(new), "little")
+    elif kind == 3:
+        # READ system call whose result word is the word being executed
+        old[lane] = 0xD3
+        a = 2
+        mem[1] = (w - 1) & M32                         # sp+1 = w
+        spv = mem[1]
+        mem[(spv + 2) % (1 << 32) if (spv + 2) < MEMW else 0] = 0
+        stdin = format(r.choice(SAFE), "02x")
+    elif kind == 4:
+        # plain straight-line bytes across a word boundary
+        lane = 2 + r.below(2)
+    else:
+        # prefix chain spanning words
+        old = [0xE0 | r.below(16), 0xF0 | r.below(16), 0xE0 | r.below(16), 0x30 | r.below(16)]
+    mem[w] = int.from_bytes(bytes(old), "little")
+    if w + 1 < MEMW and (w + 1) not in mem:
+        mem[w + 1] = int.from_bytes(bytes(r.choice(SAFE) for _ in range(4)), "little")
+    if w + 2 < MEMW and (w + 2) not in mem:
+        mem[w + 2] = int.from_bytes(bytes(r.choice(SAFE) for _ in range(4)), "little")
+    pc = (w << 2) | lane
+    memspec = ",".join(f"{hexw(kk)}={hexw(v)}" for kk, v in sorted(mem.items()))
+    return f"steps {k} {hexw(pc)} {hexw(a)} {hexw(b)} {hexw(o)} 1 {memspec} {stdin} {files}"
